@@ -190,9 +190,28 @@ def replay_records(rep, recs, pid_focus, label, sample_cap=None, seed=0):
     # state records are keyed by their full history; "depth" below is the length of the prefix before the last action
     items += [(r["h"], r["s"]) for r in states.values()]
     if sample_cap and len(items) > sample_cap:
+        # stratified sample: every (action, kind of result) class keeps at least `floor` transitions, so rare outcomes
+        # (an equality that holds, a rejected insertion ...) are never sampled away; prefixes are replayed from scratch
         rng = random.Random(seed)
-        # keep every prefix needed? prefixes are replayed from scratch, so a plain sample is sound
-        items = rng.sample(items, sample_cap)
+        strata = {}
+        for it in items:
+            h, alts = it
+            if isinstance(alts, dict):
+                key = ("state",)
+            else:
+                a, d = alts[0]
+                r = d["res"]
+                key = (a["op"], a.get("kind", a.get("f", "")), r.get("t"), str(r.get("v", r.get("e", ""))), len(alts))
+            strata.setdefault(key, []).append(it)
+        floor = max(300, sample_cap // max(1, len(strata)) // 2)
+        items = []
+        rest = []
+        for key, lst in strata.items():
+            rng.shuffle(lst)
+            items += lst[:floor]
+            rest += lst[floor:]
+        if len(items) < sample_cap:
+            items += rng.sample(rest, min(len(rest), sample_cap - len(items)))
     by_depth = {}
     for h, alts in items:
         by_depth.setdefault(len(h) - (1 if isinstance(alts, dict) else 0), []).append((h, alts))
